@@ -509,28 +509,28 @@ func cmdFacts(args []string) int {
 	}
 	f, err := collectFacts()
 	if err != nil {
-		fmt.Fprintln(os.Stderr, "facts:", err)
+		fmt.Fprintln(realStderr, "facts:", err)
 		return 2
 	}
 	js, _ := json.MarshalIndent(f, "", " ")
 	if _, err := writeIfChanged(out, string(js)); err != nil {
-		fmt.Fprintln(os.Stderr, "facts:", err)
+		fmt.Fprintln(realStderr, "facts:", err)
 		return 2
 	}
 	ch, err := writeIfChanged(filepath.Join(leanDir, "Profile.lean"), renderProfileLean(f))
 	if err != nil {
-		fmt.Fprintln(os.Stderr, "facts:", err)
+		fmt.Fprintln(realStderr, "facts:", err)
 		return 2
 	}
 	fmt.Printf("facts: %d messages, %d containers, profile.lean changed=%v\n", len(f.Msgs), len(f.Containers), ch)
 	sl, err := renderStringsLean()
 	if err != nil {
-		fmt.Fprintln(os.Stderr, "facts (string tables):", err)
+		fmt.Fprintln(realStderr, "facts (string tables):", err)
 		return 2
 	}
 	for name, content := range sl {
 		if _, err := writeIfChanged(filepath.Join(leanDir, name), content); err != nil {
-			fmt.Fprintln(os.Stderr, "facts:", err)
+			fmt.Fprintln(realStderr, "facts:", err)
 			return 2
 		}
 	}
